@@ -97,6 +97,7 @@ def violating_frames(v, deflate):
     raise ValueError(cls)
 
 
+CLOSE_WRITE_FAULTS = ["reset", "pipe", "timeout", "oserror", "exc", "eintr", "eagain"]
 NEEDS_OPEN = {"expected_continuation"}
 NEEDS_CLOSED = {"nothing_to_continue", "text_bad_utf8_later_fragment", "text_bad_utf8_nonfinal_fragment"}
 
@@ -221,6 +222,8 @@ class C04(Prop):
             "copts_noise": gen.copts_noise(("poll", "ping_rate", "ping_timeout", "close_timeout")),
             "deflate": st.sampled_from([0, 0, 1, 1, 2]),
             "client_closing": gen.weighted([(5, st.just(False)), (1, st.just(True))]),
+            # the write of the client's own Close (on meeting the violation) fails
+            "close_write_fault": gen.weighted([(4, st.none()), (1, st.sampled_from(CLOSE_WRITE_FAULTS))]),
         })
 
     def run_sched(self, case):
@@ -366,6 +369,23 @@ class C04(Prop):
         res = check_violation_trace(tr, model, labels, nontrivial)
         if res is not None:
             return res
+        if case.get("close_write_fault"):
+            # the same case once more, with the write of whatever the client sends on meeting the violation (its Close)
+            # failing: the violation is reported and the connection failed all the same
+            pei = tr.names().index("protocol_error")
+            sends = [e for e in tr.sim.log if e[0] == "send"]
+            late = [i for i, e in enumerate(sends) if e[5] >= pei]
+            if late:
+                labels.add("close_write_fails:" + case["close_write_fault"])
+                scn2 = build.scenario(
+                    [["wait_request"], ["stream", [["reply", reply], ["bytes", data]], seg, 0.0], ["eof", 0.0]],
+                    ws_opts=ws_opts, reactions=reactions,
+                    attempt_extra={"faults": {"send": {str(late[0]): case["close_write_fault"]}}})
+                tr2 = simnet.run_scenario(scn2)
+                res = check_violation_trace(tr2, model, labels, nontrivial)
+                if res is not None:
+                    res.detail = "with the client's Close write failing (%s): %s" % (case["close_write_fault"], res.detail)
+                    return res
         # auto-pongs: one per delivered Ping, none for pings after the violation
         if not case.get("client_closing"):
             pings = [e for e in model.events if e["name"] == "ping"]
@@ -473,6 +493,14 @@ class C04(Prop):
         def scheduled():
             for c in inner.make():
                 yield dict(c, sched=True)
+        def close_write_fails():
+            for c in CLASSES:
+                for f in CLOSE_WRITE_FAULTS:
+                    for closing in (False, True):
+                        yield {"prefix": [text], "open": "text" if c in NEEDS_OPEN else None,
+                               "viol": {"class": c, "a": 0, "b": 0, "wide": False}, "suffix": ["text"], "seg": "whole",
+                               "deflate": 0, "client_closing": closing, "close_write_fault": f}
+
         def after_close():
             for c in CLASSES:
                 if c in ("text_bad_utf8_later_fragment", "text_bad_utf8_nonfinal_fragment"):
@@ -484,6 +512,7 @@ class C04(Prop):
                                    "client_closing": closing}
         return [Enumeration("all_65536_headers_x6_contexts", self.header_cases, exhaustive=True),
                 Enumeration("violation_after_a_valid_server_close_same_verdict_under_every_cut", after_close, exhaustive=True),
+                Enumeration("violation_class_x_failing_close_write", close_write_fails, exhaustive=True),
                 Enumeration("violation_met_while_another_thread_closes_or_sends", scheduled, exhaustive=True),
                 Enumeration("violating_payload_looks_like_a_template", templates, exhaustive=True),
                 after_every_prelude(battery), with_noise(battery), with_companion(battery), with_debug_log(battery)]
